@@ -384,6 +384,21 @@ impl Value {
     }
 }
 
+#[cfg(feature = "sfwa_verif")]
+impl Value {
+    /// Verification hook: build a `Value` from raw NaN-box bits.
+    pub fn verif_from_bits(bits: Val) -> Self {
+        Self {
+            nan_box: NanBox::from_bits(bits),
+        }
+    }
+
+    /// Verification hook: the raw NaN-box bits of this value.
+    pub fn verif_to_bits(&self) -> Val {
+        self.nan_box.to_bits()
+    }
+}
+
 /// A context for reading and writing values.
 ///
 /// This is created by calling [`Context::new`], and is used to read values from the input and write values to the output.
